@@ -731,6 +731,30 @@ class ScriptGen:
         return "\n".join(self.lines) + "\n"
 
 
+def relayout(text, rng):
+    """the same script in another layout: comments glued to the token before them (a comment ends a token and lasts to the end
+    of the line), tabs and line breaks between tokens; lines with string literals or quoted symbols are left alone"""
+    out = []
+    for line in text.split("\n"):
+        if '"' in line or "|" in line or ";" in line or not line.strip():
+            out.append(line)
+            continue
+        cs = list(line)
+        spaces = [i for i, c in enumerate(cs) if c == " "]
+        for i in spaces:
+            k = rng.random()
+            if k < 0.12:
+                cs[i] = ";a comment (with parentheses) and \"quotes\"\n"
+            elif k < 0.2:
+                cs[i] = "\t"
+            elif k < 0.28:
+                cs[i] = "\n  "
+        if rng.random() < 0.2:
+            cs.append(";trailing comment")
+        out.append("".join(cs))
+    return "\n".join(out)
+
+
 def type_sort_eq(t, s):
     return sort_of_type(t) == s
 
@@ -845,6 +869,9 @@ def import_check(tier, seed):
             parser = SmtLibParser(fresh_env())
         g = ScriptGen(random.Random(rng.random()), rng.choice(logics), suffix="_%d" % (t % 4))
         text = g.script()
+        if t % 3 == 1:
+            text = relayout(text, random.Random(rng.random()))
+            g.features.add("layout/comments-glued-to-tokens")
         n += 1
         bad, acc = check_script(text, g.features, rng, parser)
         accepted += 1 if acc else 0
